@@ -141,6 +141,9 @@ class LogPreferences : public ola::MemoryPreferences {
 };
 
 struct PortRec {
+  unsigned int pid;        // PortId()
+  unsigned int cap;
+  bool defer;
   bool input;
   unsigned int dev;        // index, >= number of devices: no device
   InputPort *in;           // NULL once deleted
@@ -420,12 +423,14 @@ string handle(const string &payload) {
       unsigned int pid = 0;
       for (size_t j = 0; j < w.ports.size(); j++)
         if (w.ports[j].dev == r.dev && w.ports[j].input == r.input) pid++;
+      r.pid = pid; r.cap = cap; r.defer = false;
       if (r.input) {
         if (cap == 2) r.in = new VPrioInput(parent, pid, &w.adaptor, v);
         else r.in = new VInput(parent, pid, &w.adaptor, v);
         if (parent) w.devs[r.dev]->AddPort(r.in);
       } else {
         bool defer = a.size() > 8 && a[8] == "d";
+        r.defer = defer;
         VOut *vo = new VOut(parent, pid, v, cap == 2, defer, i);
         r.out = vo;
         w.vouts[i] = vo;
@@ -512,6 +517,37 @@ string handle(const string &payload) {
         r = w.dm->UnregisterDevice(static_cast<const ola::AbstractDevice*>(w.devs[d])) ? "1" : "0";
     } else if (o == "NA") {
       w.dm->UnregisterAllDevices();
+    } else if (o == "A") {
+      // Device::AddPort with a NEW port object that re-uses the id (and direction) of port a[1]
+      unsigned int pi = vh::num(a[1]);
+      if (pi < w.ports.size() && w.ports[pi].port() && w.ports[pi].dev < w.devs.size()) {
+        PortRec &pr2 = w.ports[pi];
+        CfgDevice *dev = w.devs[pr2.dev];
+        Veto nv; nv.world = &w; nv.dev = pr2.dev;
+        if (pr2.input) {
+          InputPort *np = pr2.cap == 2 ? static_cast<InputPort*>(new VPrioInput(dev, pr2.pid, &w.adaptor, nv))
+                                       : static_cast<InputPort*>(new VInput(dev, pr2.pid, &w.adaptor, nv));
+          r = dev->AddPort(np) ? "1" : "0";
+          if (dev->GetInputPort(pr2.pid) == np) { pr2.in = np; r += "!adopted"; }   // the device took it over
+          else delete np;                                                          // caller keeps ownership
+        } else {
+          VOut *np = new VOut(dev, pr2.pid, nv, pr2.cap == 2, pr2.defer, pi);
+          r = dev->AddPort(static_cast<OutputPort*>(np)) ? "1" : "0";
+          if (dev->GetOutputPort(pr2.pid) == np) { pr2.out = np; w.vouts[pi] = np; r += "!adopted"; }
+          else delete np;
+        }
+      }
+    } else if (o == "ST") {
+      unsigned int d = vh::num(a[1]);
+      if (d < w.devs.size()) r = w.devs[d]->Start() ? "1" : "0";
+    } else if (o == "DA") {
+      // Device::DeleteAllPorts called directly (what Stop() does between its hooks)
+      unsigned int d = vh::num(a[1]);
+      if (d < w.devs.size()) {
+        w.devs[d]->DeleteAllPorts();
+        for (size_t i = 0; i < w.ports.size(); i++)
+          if (w.ports[i].dev == d) { w.ports[i].in = NULL; w.ports[i].out = NULL; w.vouts.erase(i); }
+      }
     } else if (o == "DF") {
       // the oldest discovery in flight on output port a[1] completes with the UIDs in mask a[2]
       std::map<int, VOut*>::iterator it = w.vouts.find(vh::num(a[1]));
